@@ -90,6 +90,9 @@ func (g *Gen) randBig(max *big.Int) *big.Int {
 func (g *Gen) Config() Config {
 	p := g.P
 	c := Config{NVals: 3, NActors: 5, CommunityTax: "0.02", SignedWindow: 4, JailNs: int64(10 * time.Minute), MaxValidators: 100}
+	if p.Name == "native" && g.chance(0.25) {
+		c.MaxValidators = 3 // validator-set churn: bonded status changes with the stakes
+	}
 	if g.chance(0.3) {
 		c.NVals = 4
 	}
@@ -549,6 +552,10 @@ func (g *Gen) Next(opsLeftInBlock *int) Step {
 		s := g.queue[0]
 		g.queue = g.queue[1:]
 		return s
+	}
+	if g.P.Pack && g.chance(0.01) || (!g.P.Pack && g.chance(0.003)) {
+		u := []time.Duration{10 * time.Minute, time.Hour, 24 * time.Hour, 3 * 24 * time.Hour}[g.pick(4)]
+		return Step{K: "set_unbonding", Amt: fmt.Sprint(int64(u))}
 	}
 	if *opsLeftInBlock <= 0 {
 		*opsLeftInBlock = g.pick(g.P.MaxOps + 1)
